@@ -240,17 +240,17 @@ READERS = [(b"/h/r", 1000), (b"/h/r5", 5)]
 
 def S(path, kind, announced=0, chunks=()):
     """a handler whose reply carries a future: kind 0 = kvarn's stream_body() on the file of that path, 1 = with_future
-    (no length), 2 = with_future_and_len(announced)"""
+    (no length), 2 = with_future_and_len(announced), 3 = with_future and a content-length header of the handler's own"""
     return xl(xb(path), xn(kind), xn(announced), xlist([xb(c) for c in chunks]))
 
 
 STREAMS = [S(b"/s/file.txt", 0), S(b"/s/e.txt", 0), S(b"/s/missing.txt", 0), S(b"/s/big.bin", 0), S(b"/s/huge.bin", 0),
            S(b"/st/len", 2, 11, [b"hello ", b"", b"world"]), S(b"/st/len0", 2, 0, []),
-           S(b"/st/nolen", 1, 0, [b"abc", b"", b"defg"])]
+           S(b"/st/nolen", 1, 0, [b"abc", b"", b"defg"]), S(b"/st/own", 3, 10, [b"own ", b"length"])]
 NOLEN = b"/st/nolen"
 TARGETS = [b"/f.txt", b"/f.txt", b"/big.txt", b"/e.txt", b"/dir/g.txt", b"/missing.txt", b"/", b"/dir/", b"/./f.txt", b"/h/a", b"/h/a", b"/h/c", b"/h/n",
            b"/h/e", b"/h/r", b"/h/r5", b"/h/k", b"/h/q", b"/h/q?x=1", b"/h/m", b"/h/x", b"/h/u", b"/h/l", b"/f.txt?v=2", b"/h/zz",
-           b"/s/file.txt", b"/s/file.txt", b"/s/e.txt", b"/s/missing.txt", b"/st/len", b"/st/len", b"/st/len0", b"/h/n2", b"/h/nm", b"/h/te",
+           b"/s/file.txt", b"/s/file.txt", b"/s/e.txt", b"/s/missing.txt", b"/st/len", b"/st/len", b"/st/len0", b"/st/own", b"/h/n2", b"/h/nm", b"/h/te",
            b"/h/big", b"/./s/file.txt", b"/h/long"]
 ACCEPT = [None, None, None, None, b"gzip", b"br", b"identity", b"gzip, br", b"*", b"zstd, gzip;q=0.5", b"deflate", b"gzip", b"br", b"zstd",
           b"identity;q=0", b"gzip;q=0, identity"]
@@ -424,7 +424,7 @@ def generate(rng, tier):
     cases.append(conn_case(plain, [R(b"GET", b"/f.txt"), R(b"GET", b"/f.txt", [(b"if-modified-since", b"@T+3600")]), R(b"HEAD", b"/f.txt", [(b"if-modified-since", b"@T+3600")]),
                                    R(b"GET", b"/f.txt", [(b"if-modified-since", b"@T+3600"), (b"range", b"bytes=0-3")]), R(b"GET", b"/f.txt")], "corpus-304"))
     cases.append(conn_case(plain, [R(b"GET", b"/h/n"), R(b"GET", b"/h/x"), R(b"GET", b"/h/u"), R(b"GET", b"/h/l"), R(b"HEAD", b"/h/l"), R(b"OPTIONS", b"/f.txt"), R(b"GET", b"/h/e")], "corpus-handlers"))
-    # the five defects of the send path (fixed: 537474e 1d0a5e7 7d5ef9e 85bf4a8 ba3ae72)
+    # the five defects of the send path (fixed: 537474e 1d0a5e7 feabc71 b4638db c151144)
     cases.append(conn_case(plain, [R(b"HEAD", b"/s/file.txt"), R(b"GET", b"/f.txt"), R(b"HEAD", b"/st/len"), R(b"GET", b"/st/len"), R(b"GET", b"/f.txt")], "corpus-stream-head"))
     cases.append(conn_case(plain, [R(b"GET", b"/s/file.txt", [(b"range", b"bytes=0-99999")]), R(b"GET", b"/s/file.txt", [(b"range", b"bytes=50-60")]),
                                    R(b"GET", b"/s/file.txt", [(b"range", b"bytes=5-9")]), R(b"HEAD", b"/s/file.txt", [(b"range", b"bytes=30-40")]),
@@ -432,6 +432,8 @@ def generate(rng, tier):
                                    R(b"GET", b"/s/e.txt"), R(b"GET", b"/s/missing.txt"), R(b"POST", b"/s/file.txt"), R(b"GET", b"/f.txt")], "corpus-stream-range"))
     cases.append(conn_case(plain, [R(b"GET", b"/f.txt"), R(b"GET", NOLEN), R(b"GET", b"/f.txt")], "corpus-stream-nolen"))
     cases.append(conn_case(plain, [R(b"GET", b"/f.txt"), R(b"HEAD", NOLEN), R(b"GET", b"/f.txt")], "corpus-stream-nolen"))
+    # a stream of unknown length that the handler frames itself (its own content-length): the connection is kept
+    cases.append(conn_case(plain, [R(b"GET", b"/st/own"), R(b"HEAD", b"/st/own"), R(b"GET", b"/st/own", [(b"range", b"bytes=1-2")]), R(b"GET", b"/f.txt")], "corpus-stream-own-length"))
     cases.append(conn_case(plain, [R(b"GET", b"/h/n2"), R(b"GET", b"/f.txt"), R(b"GET", b"/h/nm"), R(b"HEAD", b"/h/n2"), R(b"GET", b"/h/n2", [(b"range", b"bytes=0-3")]),
                                    R(b"POST", b"/h/nm"), R(b"GET", b"/f.txt")], "corpus-bodyless-with-body"))
     cases.append(conn_case(plain, [R(b"GET", b"/h/te"), R(b"GET", b"/f.txt"), R(b"HEAD", b"/h/te"), R(b"GET", b"/h/te", [(b"range", b"bytes=4-10")]), R(b"GET", b"/f.txt")], "corpus-transfer-encoding"))
@@ -545,7 +547,7 @@ def _closing(c, spec):
     if not sp:
         return False
     sx = xparse(sp)
-    return sx[0] == "L" and len(sx[1]) == 4 and sx[1][3][1] == 1
+    return sx[0] == "L" and len(sx[1]) == 5 and sx[1][3][1] == 1
 
 
 def _stage2(cases, impl, drv, spec):
@@ -683,11 +685,11 @@ def spec_ok(c, i, s):
     order (nothing left over), the connection is still usable - or, after a stream of unknown length, closed by the server
     with that stream as the last thing on it - and HEAD announces the length GET gets"""
     v, sx = _view(c, i), xparse(s)
-    if v is None or sx[0] != "L" or len(sx[1]) != 4:
+    if v is None or sx[0] != "L" or len(sx[1]) != 5:
         return False
     n, must_open, closing = sx[1][0][1], sx[1][1][1], sx[1][3][1]
     c.meta["instance"] = sx[1][2][1]
-    c.meta["closing_instance"] = closing
+    c.meta["closing_instance"] = sx[1][4][1]
     summary = "; ".join(_req_text(r) for r in c.x[1][1][1])
     if v["confused"] or v["resp"] is None or len(v["resp"]) != n or v["answered"] != n:
         c.meta["why"] = ("the strict client does not find exactly one well-formed response per request (%d requests sent, %d answered%s%s)"
